@@ -107,6 +107,32 @@ class World:
                 self.k += 1
                 d.add_component(np.full(self.shape, float(self.k)), 'n%d' % self.k)
                 return ['DataAddComponentMessage', 'ComponentsChangedMessage'], None
+            if k == 'add-same-name':
+                # a second attribute under a name that is already in use is a new attribute like any other
+                c = self.cid(op[1])
+                if c is None:
+                    return None, None
+                n0 = len(d.components)
+                d.add_component(np.full(self.shape, 7.0), op[1])
+                if len(d.components) != n0 + 1:
+                    return None, "add_component under the used name %r did not add an attribute" % op[1]
+                return ['DataAddComponentMessage', 'ComponentsChangedMessage'], None
+            if k == 'update_components-partly-bad':
+                # the first entry is fine, a later one is rejected: nothing may have been replaced
+                ca, cb = self.cid('a'), self.cid('b')
+                if ca is None or cb is None or ca in d.derived_components or cb in d.derived_components:
+                    return None, None
+                va, vb = np.array(d[ca]).copy(), np.array(d[cb]).copy()
+                bad = np.zeros((9,)) if op[1] == 'shape' else None
+                try:
+                    if op[1] == 'shape':
+                        d.update_components({ca: np.full(self.shape, 4.0), cb: bad})
+                    else:
+                        d.update_components({ca: np.full(self.shape, 4.0), ComponentID('not-in-this-dataset'): np.full(self.shape, 1.0)})
+                except Exception:
+                    same = np.array_equal(np.array(d[ca]), va, equal_nan=True) and np.array_equal(np.array(d[cb]), vb, equal_nan=True)
+                    return ([], None) if same else (None, "a rejected update_components (%s) replaced the values of an earlier entry without announcing it" % op[1])
+                return None, "update_components accepted an invalid entry (%s)" % op[1]
             if k == 'add-bad-shape':
                 self.k += 1
                 try:
@@ -183,6 +209,14 @@ class World:
             if k == 'update_values':
                 shape = self.shape if op[1] == 'same' else ((5,) if len(self.shape) == 1 else (3, 2))
                 n = Data(label='d', a=np.zeros(shape), b=np.ones(shape), z=np.full(shape, 2.0))
+                labels = [c.label for c in d.main_components]
+                if len(set(labels)) != len(labels):
+                    # documented refusal: with two attributes of one name the values cannot be matched up by name
+                    try:
+                        d.update_values_from_data(n)
+                    except ValueError:
+                        return [], None
+                    return None, "update_values_from_data accepted a dataset with non-unique attribute names"
                 d.update_values_from_data(n)
                 self.shape = shape
                 return None, None
@@ -214,7 +248,7 @@ class World:
         return out
 
 
-OPS = [('add',), ('add-bad-shape',), ('add-existing-id',), ('add-derived',), ('remove', 'a'), ('remove', 'c'), ('remove', 'b'), ('remove', 'zz'),
+OPS = [('add',), ('add-same-name', 'a'), ('add-same-name', 'b'), ('update_components-partly-bad', 'shape'), ('update_components-partly-bad', 'unknown-id'), ('add-bad-shape',), ('add-existing-id',), ('add-derived',), ('remove', 'a'), ('remove', 'c'), ('remove', 'b'), ('remove', 'zz'),
        ('reorder', 'reverse'), ('reorder', 'same'), ('reorder-bad',), ('rename', 'a'), ('update_id', 'a'), ('update_id', 'c'), ('update_id-same',),
        ('update_components', 'b'), ('update_components-bad',), ('update_values', 'same'), ('update_values', 'other'),
        ('set_coords', 'none'), ('set_coords', 'identity'), ('set_coords', 'affine')]
